@@ -1589,4 +1589,145 @@ theorem C10_roundtrip : ∀ e ∈ Gen.lineLength, ∀ (s : Str) (src : WCard),
   rw [wrapStringWith_eq, hs]
   exact C10_roundtrip_card e.2 hW src hok hcls
 
+/-! ### non-vacuity: a card of the 80-column regime that has to be wrapped (a `$` comment that does not fit, a
+    98-column comment card, a continuation line).  The strings are written as character lists so that `decide`
+    evaluates them in the kernel without unpacking string literals. -/
+
+theorem lineOK_data (W : Nat) (L : Str) (hc : Clean L) (hn : stripNonEmpty L = true) (hnc : isCommentCard L = false)
+    (hd : DataOK W L) : LineOK W L := ⟨hc, hn, by simp only [hnc, Bool.false_eq_true, if_false]; exact hd⟩
+
+theorem lineOK_comment (W : Nat) (L : Str) (hc : Clean L) (hn : stripNonEmpty L = true) (hcc : isCommentCard L = true)
+    (hd : CommentOK W L) : LineOK W L := ⟨hc, hn, by simp only [hcc, if_true]; exact hd⟩
+
+/-- `1 0 -1 -2 -3 -4 -5 -6 -7 -8 -9 -10 -11 -12 -13 -14 -15 -16 imp:n=1 $ this dollar comment is too long` -/
+def exLine1 : Str := ['1', ' ', '0', ' ', '-', '1', ' ', '-', '2', ' ', '-', '3', ' ', '-', '4', ' ', '-', '5', ' ', '-', '6', ' ', '-', '7', ' ', '-', '8', ' ', '-', '9', ' ', '-', '1', '0', ' ', '-', '1', '1', ' ', '-', '1', '2', ' ', '-', '1', '3', ' ', '-', '1', '4', ' ', '-', '1', '5', ' ', '-', '1', '6', ' ', 'i', 'm', 'p', ':', 'n', '=', '1', ' ', '$', ' ', 't', 'h', 'i', 's', ' ', 'd', 'o', 'l', 'l', 'a', 'r', ' ', 'c', 'o', 'm', 'm', 'e', 'n', 't', ' ', 'i', 's', ' ', 't', 'o', 'o', ' ', 'l', 'o', 'n', 'g']
+/-- `c this is a very long comment line that is longer than eighty columns but shorter than 128 columns` -/
+def exLine2 : Str := ['c', ' ', 't', 'h', 'i', 's', ' ', 'i', 's', ' ', 'a', ' ', 'v', 'e', 'r', 'y', ' ', 'l', 'o', 'n', 'g', ' ', 'c', 'o', 'm', 'm', 'e', 'n', 't', ' ', 'l', 'i', 'n', 'e', ' ', 't', 'h', 'a', 't', ' ', 'i', 's', ' ', 'l', 'o', 'n', 'g', 'e', 'r', ' ', 't', 'h', 'a', 'n', ' ', 'e', 'i', 'g', 'h', 't', 'y', ' ', 'c', 'o', 'l', 'u', 'm', 'n', 's', ' ', 'b', 'u', 't', ' ', 's', 'h', 'o', 'r', 't', 'e', 'r', ' ', 't', 'h', 'a', 'n', ' ', '1', '2', '8', ' ', 'c', 'o', 'l', 'u', 'm', 'n', 's']
+/-- `     vol=2 u=3` -/
+def exLine3 : Str := [' ', ' ', ' ', ' ', ' ', 'v', 'o', 'l', '=', '2', ' ', 'u', '=', '3']
+/-- the three lines with line ends and an empty line in between, as handed to `wrap_string_for_mcnp` -/
+def exString : Str := ['1', ' ', '0', ' ', '-', '1', ' ', '-', '2', ' ', '-', '3', ' ', '-', '4', ' ', '-', '5', ' ', '-', '6', ' ', '-', '7', ' ', '-', '8', ' ', '-', '9', ' ', '-', '1', '0', ' ', '-', '1', '1', ' ', '-', '1', '2', ' ', '-', '1', '3', ' ', '-', '1', '4', ' ', '-', '1', '5', ' ', '-', '1', '6', ' ', 'i', 'm', 'p', ':', 'n', '=', '1', ' ', '$', ' ', 't', 'h', 'i', 's', ' ', 'd', 'o', 'l', 'l', 'a', 'r', ' ', 'c', 'o', 'm', 'm', 'e', 'n', 't', ' ', 'i', 's', ' ', 't', 'o', 'o', ' ', 'l', 'o', 'n', 'g', '\n', 'c', ' ', 't', 'h', 'i', 's', ' ', 'i', 's', ' ', 'a', ' ', 'v', 'e', 'r', 'y', ' ', 'l', 'o', 'n', 'g', ' ', 'c', 'o', 'm', 'm', 'e', 'n', 't', ' ', 'l', 'i', 'n', 'e', ' ', 't', 'h', 'a', 't', ' ', 'i', 's', ' ', 'l', 'o', 'n', 'g', 'e', 'r', ' ', 't', 'h', 'a', 'n', ' ', 'e', 'i', 'g', 'h', 't', 'y', ' ', 'c', 'o', 'l', 'u', 'm', 'n', 's', ' ', 'b', 'u', 't', ' ', 's', 'h', 'o', 'r', 't', 'e', 'r', ' ', 't', 'h', 'a', 'n', ' ', '1', '2', '8', ' ', 'c', 'o', 'l', 'u', 'm', 'n', 's', '\n', '\n', ' ', ' ', ' ', ' ', ' ', 'v', 'o', 'l', '=', '2', ' ', 'u', '=', '3', '\n']
+
+def exCard : WCard := ⟨exLine1, [exLine2, exLine3]⟩
+
+theorem exCard_ok : CardOK exCard := (FileWrite.cardOKb_iff exCard).mp (by decide)
+
+theorem exCard_lines : ∀ l ∈ exCard.lines, LineOK 80 l := by
+  have h1 : LineOK 80 exLine1 :=
+    lineOK_data _ _ (by decide) (by decide) (by decide) ⟨by decide, by decide, by decide, by decide⟩
+  have h2 : LineOK 80 exLine2 :=
+    lineOK_comment _ _ (by decide) (by decide) (by decide) (by unfold CommentOK; decide)
+  have h3 : LineOK 80 exLine3 :=
+    lineOK_data _ _ (by decide) (by decide) (by decide) ⟨by decide, by decide, by decide, by decide⟩
+  intro l hl
+  simp only [exCard, FileWrite.WCard.lines, List.mem_cons, List.mem_nil_iff, or_false] at hl
+  rcases hl with rfl | rfl | rfl
+  · exact h1
+  · exact h2
+  · exact h3
+
+/-- the hypotheses of `C10_roundtrip` hold for it, two of its lines are longer than 80 columns, and so the theorem
+    applies to a card that really is wrapped -/
+example : 80 < exLine1.length ∧ 80 < exLine2.length := by decide
+
+example : ∃ o os, (wrapStringWith exString 80 true).1 = o :: os ∧ CardOK ⟨o, os⟩ ∧
+    obsCard (readCard ⟨o, os⟩) = obsCard (readCard exCard) :=
+  C10_roundtrip ((6, 1, 0), 80) (by decide) exString exCard (by decide) exCard_ok exCard_lines
+
+/-! ## 9. the start rule and the blank-line rule as statements of their own -/
+
+theorem not_indented_of_comment (x : Str) (h : isCommentCard x = true) : isIndented x = false := by
+  cases hi : isIndented x with
+  | false => rfl
+  | true => rw [not_comment_of_indented x hi] at h; cases h
+
+/-- **C10_start** — for every source line of the class `LineOK`: the first line `_wrap_line` returns is indented
+    exactly when the source line is (an input's first line is not pushed into the continuation columns, a
+    continuation line stays one) and is a comment card exactly when the source line is; every further line starts
+    with at least `BLANK_SPACE_CONTINUE` blanks or is a comment card. -/
+theorem C10_start (W : Nat) (hW : 7 < W) (L : Str) (h : LineOK W L) :
+    ∃ o os, wrapLine L W [] (blanks Gen.blankSpaceContinue) = o :: os ∧
+      isIndented o = isIndented L ∧ isCommentCard o = isCommentCard L ∧
+      ∀ x ∈ os, isIndented x = true ∨ isCommentCard x = true := by
+  have h5 : blanks Gen.blankSpaceContinue = blanks 5 := rfl
+  rw [h5]
+  by_cases hc : isCommentCard L = true
+  · have hok := h.ok; simp only [hc, if_true] at hok
+    obtain ⟨hne, hall, _⟩ := wrapLine_comment W hW L [] h.clean hc hok
+    cases hw : wrapLine L W [] (blanks 5) with
+    | nil => exact absurd hw hne
+    | cons o os =>
+      rw [hw] at hall
+      have ho := (hall o List.mem_cons_self).2
+      refine ⟨o, os, rfl, ?_, by rw [ho, hc], fun x hx => Or.inr (hall x (List.mem_cons_of_mem _ hx)).2⟩
+      rw [not_indented_of_comment o ho, not_indented_of_comment L hc]
+  · have hc' : isCommentCard L = false := by simpa using hc
+    have hok := h.ok; simp only [hc', Bool.false_eq_true, if_false] at hok
+    obtain ⟨o, os, he, hio, hdo, hos, _⟩ := wrapLine_data W hW L h.clean h.nonblank hc' hok
+    exact ⟨o, os, he, hio, by rw [hdo.notcomment, hc'], fun x hx => Or.inl (hos x hx).indented⟩
+
+theorem textBlank_of_fileBlank (x : Str) (h : isBlankLine x = false) : Spec.Text.isBlankLine x = false := by
+  cases ht : Spec.Text.isBlankLine x with
+  | false => rfl
+  | true =>
+    simp only [Spec.Text.isBlankLine, List.all_eq_true, beq_iff_eq] at ht
+    have : isBlankLine x = true := by
+      simp only [Spec.File.isBlankLine, List.all_eq_true]
+      intro c hc
+      rw [ht c hc]; decide
+    rw [this] at h; cases h
+
+/-- **C10_noblank** — no line `_wrap_line` produces is blank (a blank line would end the block), in every branch:
+    lines that fit, wrapped data, a `$` comment put back behind its data or moved to lines of its own, wrapped comment
+    cards.  Hypotheses: the source line is not blank and holds no white space but blanks; for a comment card, no
+    word longer than a continuation `c ` line (otherwise nothing about the data: over-long words included). -/
+theorem C10_noblank (W : Nat) (hW : 7 < W) (L : Str) (hcl : Clean L) (hnb : stripNonEmpty L = true)
+    (hcm : isCommentCard L = true → CommentOK W L) :
+    ∀ x ∈ wrapLine L W [] (blanks Gen.blankSpaceContinue),
+      isBlankLine x = false ∧ Spec.Text.isBlankLine x = false := by
+  have h5 : blanks Gen.blankSpaceContinue = blanks 5 := rfl
+  rw [h5]
+  suffices hx : ∀ x ∈ wrapLine L W [] (blanks 5), isBlankLine x = false from
+    fun x hxm => ⟨hx x hxm, textBlank_of_fileBlank x (hx x hxm)⟩
+  by_cases hc : isCommentCard L = true
+  · exact fun x hx => ((wrapLine_comment W hW L [] hcl hc (hcm hc)).2.1 x hx).1
+  · have hc' : isCommentCard L = false := by simpa using hc
+    have hpa := partitionDollar_append L
+    unfold wrapLine
+    simp only [expandTabs_clean _ L hcl, isCommentLine_eq, hc', Bool.false_eq_true, if_false, List.length_nil,
+      Nat.zero_add, List.nil_append]
+    generalize partitionDollar L = p at *
+    obtain ⟨d, has, t⟩ := p
+    simp only at hpa ⊢
+    have hret : ∀ x ∈ (textwrapWrap W [] (blanks 5) d).filter stripNonEmpty, isBlankLine x = false :=
+      fun x hx => not_fileBlank_of_stripNonEmpty x (List.mem_filter.mp hx).2
+    split
+    · intro x hx
+      simp only [List.mem_singleton] at hx
+      subst hx
+      exact not_fileBlank_of_stripNonEmpty _ hnb
+    · cases has with
+      | false => simpa using hret
+      | true =>
+        simp only [if_true] at hpa ⊢
+        have hclt : Clean t := by
+          intro c hc hs
+          exact hcl c (by rw [hpa]; exact List.mem_append_right _ (List.mem_cons_of_mem _ hc)) hs
+        have hdl := (dollarLines W hW t hclt).2.1
+        split
+        · split
+          · intro x hx
+            rcases mem_dropLast_append _ _ _ hx with h | h
+            · exact hret x h
+            · subst h
+              exact not_fileBlank_of_mem _ '$' (by simp) (by decide)
+          · intro x hx
+            rcases List.mem_append.mp hx with h | h
+            · exact hret x h
+            · exact (hdl x h).1.nonblank
+        · intro x hx
+          rcases List.mem_append.mp hx with h | h
+          · exact hret x h
+          · exact (hdl x h).1.nonblank
+
 end MontePyVerif.C10
